@@ -373,4 +373,118 @@ theorem normSq_sub_le (a b c : Vec3 ℝ) : (a.sub c).normSq ≤ 2 * (a.sub b).no
   nlinarith [sq_nonneg (a.x - b.x - (b.x - c.x)), sq_nonneg (a.y - b.y - (b.y - c.y)), sq_nonneg (a.z - b.z - (b.z - c.z))]
 
 
+/-! ## definitional facts about the batch / history models (moved from Props: they hold by construction of the model —
+whether the *code* is stateless, in particular whether `stepper.reset()` does its job, is decided by the harness's
+history and lifecycle streams, not by these lemmas) -/
+
+/-- **Trace identity** (DESIGN §5 C17): for a symmetric `A` and *any* quaternion `z = (v, w)` (the code's rotation
+formula `R(z) = 1 + 2w[v]× + 2[v]×²`), `tr A − tr(A·R(z)) = 2 vᵀ(tr(A)·1 − A) v`. -/
+theorem trace_rotation_identity (A : Mat3 ℝ) (hA : A.transpose = A) (z : Quat ℝ) :
+    A.trace - (A.mul (SO3matrix z)).trace
+      = 2 * z.vec.dot ((Mat3.sub (Mat3.smul A.trace Mat3.one) A).mulVec z.vec) := by
+  have e : ∀ (X Y : Mat3 ℝ), X = Y → X.r0.y = Y.r0.y ∧ X.r0.z = Y.r0.z ∧ X.r1.z = Y.r1.z := by
+    intro X Y h; subst h; simp
+  obtain ⟨h01, h02, h12⟩ := e _ _ hA
+  revert h01 h02 h12
+  unfold SO3matrix; lie_unfold
+  intro h01 h02 h12
+  linear_combination (2 * z.w * z.z) * h01 + (-2 * z.w * z.y) * h02 + (2 * z.w * z.x) * h12
+
+
+/-- **a call history on one ICP module is stateless**: after any list of calls — with every per-call argument (clouds
+of any sizes, number of passes, forward-`init` or none) varying freely — the module is what it was, and the result of
+every call is the result of the same call on a fresh module. -/
+theorem icpMod_history (align : Pairs ℝ → SE3 ℝ) (nn : Cloud ℝ → Vec3 ℝ → Nat) (m : IcpMod ℝ) (calls : List (IcpCall ℝ)) :
+    (IcpMod.run align nn m calls).1 = m ∧
+    (IcpMod.run align nn m calls).2 = calls.map fun c => (m.forward align nn c).2 := by
+  induction calls with
+  | nil => exact ⟨rfl, rfl⟩
+  | cons c cs ih =>
+    simp only [IcpMod.run, List.map_cons]
+    have hm : (m.forward align nn c).1 = m := rfl
+    rw [hm]
+    exact ⟨ih.1, by rw [ih.2]⟩
+
+
+/-- forward's `init` takes precedence over the constructor's; without it the constructor's is used -/
+theorem icpMod_init_precedence (align : Pairs ℝ → SE3 ℝ) (nn : Cloud ℝ → Vec3 ℝ → Nat) (m : IcpMod ℝ) (c : IcpCall ℝ) :
+    (∀ T, c.fwdInit = some T → (m.forward align nn c).2 = icp align nn (some T) c.passes c.src c.tgt) ∧
+    (c.fwdInit = none → (m.forward align nn c).2 = icp align nn m.init c.passes c.src c.tgt) := by
+  constructor
+  · intro T hT; simp [IcpMod.forward, IcpMod.effInit, hT]
+  · intro hN; simp [IcpMod.forward, IcpMod.effInit, hN]
+
+
+/-- **failing calls are atomic**: a history in which some calls raise gives the module and the results of the history
+without the failed calls. -/
+theorem icpMod_history_atomic (align : Pairs ℝ → SE3 ℝ) (nn : Cloud ℝ → Vec3 ℝ → Nat) (m : IcpMod ℝ)
+    (calls : List (Option (IcpCall ℝ))) :
+    IcpMod.runE align nn m calls = IcpMod.run align nn m (calls.filterMap id) := by
+  induction calls generalizing m with
+  | nil => rfl
+  | cons c cs ih =>
+    cases c with
+    | none => simp only [IcpMod.runE, List.filterMap_cons, id]; exact ih m
+    | some c =>
+      simp only [IcpMod.runE, List.filterMap_cons, id, IcpMod.run]
+      rw [ih]
+      rfl
+
+
+/-- **copies are independent**: with two module objects used interleaved in any order, neither object changes and every
+call returns what a fresh module with the state of the object it was made on returns — in particular a copy (equal
+state) and its original give equal results for equal arguments, and nothing one of them is asked changes the other. -/
+theorem icpMod_copies_independent (align : Pairs ℝ → SE3 ℝ) (nn : Cloud ℝ → Vec3 ℝ → Nat) (a b : IcpMod ℝ)
+    (calls : List (Bool × IcpCall ℝ)) :
+    (IcpMod.run2 align nn a b calls).1 = (a, b) ∧
+    (IcpMod.run2 align nn a b calls).2 = calls.map fun p => ((if p.1 then b else a).forward align nn p.2).2 := by
+  induction calls with
+  | nil => exact ⟨rfl, rfl⟩
+  | cons p ps ih =>
+    obtain ⟨w, c⟩ := p
+    cases w with
+    | false =>
+      simp only [IcpMod.run2, List.map_cons, Bool.false_eq_true, if_false]
+      have hm : (a.forward align nn c).1 = a := rfl
+      rw [hm]; exact ⟨ih.1, by rw [ih.2]⟩
+    | true =>
+      simp only [IcpMod.run2, List.map_cons, if_true]
+      have hm : (b.forward align nn c).1 = b := rfl
+      rw [hm]; exact ⟨ih.1, by rw [ih.2]⟩
+
+
+
+/-- a `Sim3` element of Umeyama's closed form is optimal among all similarities (the inequality part of `svdstf_optimal`,
+independent of how the element was obtained — used for items of a batch that pass the batch-level rank test) -/
+theorem sim3_optimal_of_form (ps : Pairs ℝ) (hN : ps ≠ []) (hA : 0 < energyS (centered ps)) (d : SVD3 ℝ) (h : SVDOk (Hmat ps) d)
+    (X : Sim3 ℝ) (hXs : X.s = umeyamaScale d ps) (hXm : SO3matrix X.q = rotOf d)
+    (hXt : X.t = (mean (tgts ps)).sub ((Mat3.smul (umeyamaScale d ps) (rotOf d)).mulVec (mean (srcs ps)))) :
+    ∀ X' : Sim3 ℝ, X'.q.normSq = 1 → 0 ≤ X'.s → cost (Sim3Act X) ps ≤ cost (Sim3Act X') ps := by
+  intro X' hq' hs'
+  have hrot := rotOf_isRot d h.orthU h.orthV
+  have hrot' := isRot_SO3matrix _ hq'
+  have hN' : (0:ℝ) < (ps.length : ℝ) := by
+    have : 0 < ps.length := List.length_pos_of_ne_nil hN
+    positivity
+  rw [Sim3Act_eq_affine X, Sim3Act_eq_affine X', hXm, hXt, hXs, cost_centred_similarity _ hrot.1, cost_affine_centered,
+    cost_expand_scaled _ hrot'.1]
+  have hle := frob_le_rotOf _ _ h _ hrot'
+  rw [frob_Hmat, frob_Hmat] at hle
+  have hle' : Mat3.frob (SO3matrix X'.q) (crossCov (centered ps)) ≤ Mat3.frob (rotOf d) (crossCov (centered ps)) := by
+    have hpos : (0:ℝ) < 1 / (ps.length : ℝ) := by positivity
+    exact le_of_mul_le_mul_left hle hpos
+  have hc := umeyamaScale_eq ps hN hA.ne' d h
+  have hd' : 0 ≤ (ps.length : ℝ) * (((Mat3.smul X'.s (SO3matrix X'.q)).mulVec (mean (srcs ps))).add X'.t |>.sub
+      (mean (tgts ps))).normSq := mul_nonneg hN'.le (Align.normSq_nonneg _)
+  generalize umeyamaScale d ps = c at hc ⊢
+  generalize Mat3.frob (rotOf d) (crossCov (centered ps)) = m at hc hle' ⊢
+  generalize Mat3.frob (SO3matrix X'.q) (crossCov (centered ps)) = m' at hle' ⊢
+  generalize energyS (centered ps) = A at hA hc ⊢
+  generalize energyT (centered ps) = B
+  have h1 : 0 ≤ A * (X'.s - c) ^ 2 := mul_nonneg hA.le (sq_nonneg _)
+  have h2 : 0 ≤ X'.s * (m - m') := mul_nonneg hs' (sub_nonneg.mpr hle')
+  subst hc
+  nlinarith [h1, h2, hd']
+
+
 end PP.C17
